@@ -310,7 +310,8 @@ SynErr == [k |-> "synerr"]
 SnapFin == CmdL(<<"snap", "fin">>)
 Opts(x, v, n, i) == [x |-> x, v |-> v, n |-> n, i |-> i]
 NoOpts == Opts(FALSE, FALSE, FALSE, FALSE)
-Scen(o, prog, dots) == [o |-> o, prog |-> prog, dots |-> dots]
+Scen(o, prog, dots) == [o |-> o, prog |-> prog, dots |-> dots, env4 |-> <<>>]
+ScenEnv(o, prog, dots, env4) == [o |-> o, prog |-> prog, dots |-> dots, env4 |-> env4]
 DotFile(f, c) == [f |-> f, c |-> c]
 
 (* multi-line form of a statement: the lines the shell reads for it        *)
@@ -367,6 +368,8 @@ BodyOK(cs) == \A i \in 1..Len(cs) : cs[i].k \notin {"comment", "synerr"} /\ Stmt
 
 (* A scenario: how the shell is started and what it reads.                 *)
 (*   o      start-up options [x, v, n, i]  (sh -x / -v / -n / -i)          *)
+(*   env4   the parts of a PS4 value in the environment of the shell, <<>>  *)
+(*          if PS4 is not in the environment                               *)
 (*   prog   the statements of the script (read from standard input)        *)
 (*   dots   the dot scripts [f, c]                                         *)
 Script(sc) == BodyLines(sc.prog)
@@ -375,6 +378,7 @@ ScenarioOK(sc) ==
   /\ \A i \in 1..Len(sc.prog) : StmtOK(sc.prog[i])
   /\ \A i \in 1..Len(sc.dots) : sc.dots[i].f \in {"d1", "d2"} /\ sc.dots[i].c # <<>> /\ BodyOK(sc.dots[i].c)
   /\ \A i, j \in 1..Len(sc.dots) : i # j => sc.dots[i].f # sc.dots[j].f
+  /\ \A i \in 1..Len(sc.env4) : Ps4PartOK(sc.env4[i])
 
 ---------------------------------------------------------------------------
 (* 2  state                                                                *)
@@ -407,8 +411,9 @@ IsOutSink(s) == Len(s) >= 2 /\ At(s, 1) = "o" /\ IsDigits(From(s, 2))
 Fds0 == [n \in 1..5 |-> IF n = 1 THEN OutSink(1) ELSE IF n = 2 THEN "err" ELSE "closed"]
 Ctx0 == [fds |-> Fds0, hasIn |-> FALSE, in |-> ""]
 
-State0(o, P, variant, dots) ==
-  [vars |-> [n \in {"PS4"} |-> "+ "], ps4 |-> DefaultPS4, pos |-> <<>>, fn |-> EmptyMap,
+\* XCU 2.5.3: "Variables shall be initialized from the environment"; PS4: "The default value shall be "+ "."
+State0(o, P, variant, dots, env4) ==
+  [vars |-> [n \in {"PS4"} |-> IF env4 = <<>> THEN "+ " ELSE Ps4Text(env4)], ps4 |-> IF env4 = <<>> THEN DefaultPS4 ELSE env4, pos |-> <<>>, fn |-> EmptyMap,
    xt |-> o.x, vb |-> o.v, nx |-> o.n /\ ~o.i, inter |-> o.i,
    err |-> <<>>, outs |-> <<"">>, files |-> EmptyMap, st |-> 0, halt |-> FALSE, cls |-> "ok",
    P |-> P, pu |-> {}, var |-> variant, snap |-> <<>>, tl |-> <<>>, dots |-> dots,
@@ -660,7 +665,19 @@ Simple(c, S0, C) ==
     \* no command name.  simple.md: "If there are no fields, redirections are processed in a
     \* subshell"; "the exit status is that of the last command substitution in the command, or
     \* zero if there were none" - with several substitutions the run is left open
-    IF c.rs # <<>> /\ c.as # <<>> THEN ClassW(W.S, "open", "assignments-and-redirections-without-command")
+    IF c.rs # <<>> /\ c.as # <<>> THEN
+      \* xtrace module documentation: "For each command executed, the shell prints to the standard
+      \* error a line containing" PS4, the assignments and command words, the redirections - one line
+      \* for the one command (redirections are performed first, in a subshell; simple.md steps 2, 3)
+      LET R == DoRedirs(c.rs, W.S, C, Acc0)
+      IN IF ~R.ok THEN R.S
+         ELSE IF S.xt /\ (HasInc(S.ps4) \/ \E i \in 1..Len(S.ps4) : S.ps4[i].k = "err")
+              THEN ClassW(R.S, "open", "assignments-and-redirections-without-command")
+         ELSE LET A == DoAssigns(c.as, R.S, C, <<>>, FALSE)
+              IN IF ~A.ok THEN ExpErr(A.S, C)
+                 ELSE LET T == TraceSink(A.S, C, R.C, c.id)
+                          text == JoinParts(<<JoinParts(A.tr), IF S.var = "noredir" THEN "" ELSE JoinParts(R.tr)>>)
+                      IN [TraceTo(T.S, T.sink, text, R.hd) EXCEPT !.st = IF W.sub \/ A.sub THEN @ ELSE 0]
     ELSE IF c.rs # <<>> THEN
       LET R == DoRedirs(c.rs, W.S, C, Acc0)
       IN IF ~R.ok THEN R.S
@@ -844,7 +861,7 @@ RunStmts(cs, S, C, top) ==
 
 ---------------------------------------------------------------------------
 (* 5  a whole run *)
-Run(sc, P, variant) == RunStmts(sc.prog, State0(sc.o, P, variant, sc.dots), Ctx0, TRUE)
+Run(sc, P, variant) == RunStmts(sc.prog, State0(sc.o, P, variant, sc.dots, sc.env4), Ctx0, TRUE)
 
 ModelVars == {"x", "y", "z", "i", "k", "e", "PS4"}
 NameOrder == <<"PS4", "e", "i", "k", "x", "y", "z">>
